@@ -34,6 +34,35 @@ def load(FlowCal, path, both):
     return outs
 
 
+def written_text(raw):
+    """Keywords as the (damaged) bytes spell them, by the independent C14 tokenizer.
+    Returns ('error', None) when they cannot be split into pairs."""
+    from rv.refmodels import textseg
+    try:
+        version = raw[:10].decode('latin-1').rstrip()
+        tb, te = int(raw[10:18]), int(raw[18:26])
+    except ValueError:
+        return 'error', None
+    seg = raw[tb:te + 1].decode('latin-1')
+    if not seg:
+        return 'ok', {}
+    delim = seg[0]
+    cls, d = textseg.parse(seg, delim, False)
+    if cls == 'error':
+        return cls, None
+    if version in ('FCS3.0', 'FCS3.1'):
+        try:
+            sb, se = int(d['$BEGINSTEXT']), int(d['$ENDSTEXT'])
+        except (KeyError, ValueError):
+            return 'error', None
+        if sb and se:
+            c2, d2 = textseg.parse(raw[sb:se + 1].decode('latin-1'), delim, True)
+            if c2 == 'error':
+                return 'error', None
+            d = dict(d, **d2)
+    return 'ok', d
+
+
 def judge(ctx, cid, where, o, intact_arr, intact_text, text_damaged, fault, desc):
     """o: Outcome of loading the damaged file."""
     if o.raised:
@@ -51,8 +80,10 @@ def judge(ctx, cid, where, o, intact_arr, intact_text, text_damaged, fault, desc
     if same_shape:
         ctx.check(same_vals, 'damaged-file-other-values', cid, where=where, fault=fault, spec=desc)
     text = dict(v.text)
-    if text_damaged is True:
-        ok = all(k in intact_text and intact_text[k] == val for k, val in text.items())
+    if isinstance(text_damaged, bytes):
+        # damage inside the TEXT extent: the reader must return what the damaged bytes spell (or have raised)
+        cls, want = written_text(text_damaged)
+        ok = (text == intact_text) or (cls != 'error' and text == want)
     elif isinstance(text_damaged, dict):
         ok = text == text_damaged
     else:
@@ -101,7 +132,8 @@ def run(ctx):
             os.truncate(path, cut)
             both = (cut % 5 == 0)
             for where, oo in load(FlowCal, path, both):
-                r = judge(ctx, cid, where, oo, intact_arr, intact_text, cut <= text_end, ('truncate', cut), desc)
+                r = judge(ctx, cid, where, oo, intact_arr, intact_text, raw[:cut] if cut <= text_end else False,
+                          ('truncate', cut), desc)
                 n_id += r == 'identical'
                 n_raise += r == 'raised'
             ctx.case_done(class_key=None, nontrivial=len(spec['events']) >= 2,
@@ -193,7 +225,7 @@ def run(ctx):
                 fh.write(raw2)
             for where, oo in load(FlowCal, path, nfault % 3 == 0):
                 judge(ctx, cid, where, oo, intact_arr, intact_text if text_damaged else want_text,
-                      True if text_damaged else want_text, (name, change), desc)
+                      raw2 if text_damaged else want_text, (name, change), desc)
             nfault += 1
             ctx.case_done(class_key=('corrupt', name.lstrip('$')[:2] if name.startswith('$P') and name != '$PAR' else name,
                                      spec['datatype'], cell[4]),
